@@ -30,7 +30,7 @@ RULE = ("histories of <= 12 (quick) / <= 25 (thorough) operations from a weighte
         "a case is one history; non-trivial := it contains an accepted save with non-empty metadata or a unitary "
         "dictionary, followed by a successful load/autoload of that file")
 ASSUMPTIONS = ["torch.save/torch.load round-trip tensors and plain containers bit-identically (observed on random tensors in every run)",
-               "metadata keys are strings (data.update(**metadata) requires it); metadata values under reserved names are truthy non-dict values",
+               "metadata keys are strings (data.update(**metadata) requires it); random histories put no dict of tensors under a reserved name (the fixed refusal cases do)",
                "states of one history do not share network objects (sharing is C20's subject)"]
 
 KEYS = {"rbm_am": 0, "rbm_ph": 1, "unitary_dict": 2, "weights": 10, "visible_bias": 11, "hidden_bias": 12,
@@ -141,9 +141,9 @@ class Real:
         d = torch.load(p)
         out = []
         for k, v in d.items():
-            if k in ("rbm_am", "rbm_ph") and isinstance(v, dict) and all(isinstance(x, torch.Tensor) for x in v.values()):
+            if k in ("rbm_am", "rbm_ph") and isinstance(v, dict) and v and all(isinstance(x, torch.Tensor) for x in v.values()):
                 fv = (0, [(self.T.key(n), tuple(t.shape), self.T.tok(t)) for n, t in v.items()])
-            elif k == "unitary_dict" and isinstance(v, dict):
+            elif k == "unitary_dict" and isinstance(v, dict) and v and all(isinstance(x, torch.Tensor) for x in v.values()):
                 fv = (1, sorted((self.T.key(n), self.T.tok(t)) for n, t in v.items()))
             else:
                 fv = (2, self.T.tok(v))
@@ -230,18 +230,25 @@ def make_state(ctx, kind, nv, nh, na):
     return s
 
 
+FALSY = [None, 0, "", False, [], {}, 0.0]
+
+
 def md_value(ctx, reserved=False):
+    """A metadata value loadable by torch: ints, strings, nested containers, tensors, and the falsy values
+    None / 0 / "" / False / [] / {} (also under reserved names: the refusal does not depend on the value)."""
     import torch
     r = ctx.rng.random()
-    if reserved or r < 0.35:
+    if r < 0.25:
+        return copy.deepcopy(FALSY[int(ctx.rng.integers(0, len(FALSY)))])
+    if r < 0.45:
         return int(ctx.rng.integers(1, 50))
-    if r < 0.5:
+    if r < 0.55:
         return "note-%d" % ctx.rng.integers(0, 9)
-    if r < 0.7:
-        return {"lr": float(ctx.rng.integers(1, 9)) / 8, "sched": [1, 2, int(ctx.rng.integers(0, 5))], "inner": {"k": "v"}}
+    if r < 0.75:
+        return {"lr": float(ctx.rng.integers(1, 9)) / 8, "sched": [1, 2, int(ctx.rng.integers(0, 5))], "inner": {"k": "v"}, "none": None}
     if r < 0.9:
         return torch.tensor(ctx.rng.normal(size=(2, 3)))
-    return [1.5, "x", torch.tensor([1.0, float(ctx.rng.integers(0, 4))])]
+    return [1.5, "x", None, torch.tensor([1.0, float(ctx.rng.integers(0, 4))])]
 
 
 def snapshot(s):
@@ -315,6 +322,10 @@ def one_history(ctx, hid, nops):
     R.mds = {0: {}, 1: {"a": 1, "note": "run-%d" % hid},
              2: {"cfg": {"lr": 0.25, "layers": [2, 3]}, "t": torch.tensor(rng.normal(size=(2, 2)))}}
     next_sid = nstates
+    # one LONG-LIVED ModelSaver per metadata object, constructed before any MutateMd of the history: the file must
+    # hold the dict as it is at SAVE time, not as it was when the saver was constructed
+    savers = {m_: ModelSaver(period=1, folder_path=ctx.scratch, file_name="f{}", save_initial=True, metadata=R.mds[m_]) for m_ in R.mds}
+    savers[None] = ModelSaver(period=1, folder_path=ctx.scratch, file_name="f{}", save_initial=True, metadata=None)
     h0 = R.norm()
     case = {"history": hid, "seed": ctx.seed, "states": desc_states, "ops": []}
     # The history is cut into segments: after a FAILING load / autoload (about whose after-state the property says
@@ -404,14 +415,22 @@ def one_history(ctx, hid, nops):
                 else:
                     from qucumber.callbacks import CallbackBase
                     mdarg = [] if mid is None else [mid]
-                    meta = md if (md is None or rng.random() < 0.6) else (lambda nn, e_, _m=md: _m)
-                    ms = ModelSaver(period=1, folder_path=ctx.scratch, file_name="f{}", save_initial=True, metadata=meta)
+                    if md is None or rng.random() < 0.7:
+                        ms = savers[mid]                    # constructed at the start of the history
+                    else:
+                        ms = ModelSaver(period=1, folder_path=ctx.scratch, file_name="f{}", save_initial=True,
+                                        metadata=(lambda nn, e_, _m=md: _m))
                     md_before = copy.deepcopy(md)
                     flag = bool(md) or hasattr(s, "unitary_dict")
 
                     class Pre(CallbackBase):                 # runs BEFORE the saver: the heap after training, before the save
                         def on_epoch_end(self_, nn, e_):
                             emit([1, sid, [[t for _, _, t in R.net_params(getattr(s, n))] for n in s.networks]], "fit-epoch(%d)" % sid, None)
+                            if md is not None:               # another callback updates the caller's metadata during training
+                                k_ = str(rng.choice(["epoch", "b", "cfg"]))
+                                v_ = md_value(ctx)
+                                md[k_] = v_
+                                emit([7, mid, T.key(k_), T.tok(v_)], "md%d[%s]=... (inside fit)" % (mid, k_), None)
 
                     class Post(CallbackBase):                # runs AFTER the saver
                         def on_train_start(self_, nn):
@@ -423,13 +442,19 @@ def one_history(ctx, hid, nops):
                             saved[ep] = (snapshot(s), copy.deepcopy(md), (sid, mid), step, flag)
                     okf, _ = ctx.call("fit with a ModelSaver callback", ocase,
                                       lambda: s.fit(data, epochs=ep, starting_epoch=ep, callbacks=[Pre(), ms, Post()], **kw))
-                    ctx.require("ModelSaver during fit leaves the metadata object unchanged", deep_eq(md, md_before), ocase)
+                    if okf and md is not None:
+                        dlast = torch.load(R.path(ep))
+                        ctx.require("ModelSaver inside fit stores the caller's metadata as it is at save time",
+                                    all(k_ in dlast and deep_eq(dlast[k_], v_) for k_, v_ in md.items()), ocase,
+                                    {"metadata": repr(md)[:200], "file keys": list(dlast.keys())})
                     ctx.count("fit_with_ModelSaver")
                     op = None                                # everything was emitted from inside the callbacks
                     if not okf:
                         return
         elif r < 0.28:                                      # user adds a unitary
             name = "U%d" % rng.integers(0, 3)
+            if rng.random() < 0.4 and hasattr(s, "unitary_dict") and isinstance(s.unitary_dict, dict) and s.unitary_dict:
+                name = str(rng.choice(sorted(s.unitary_dict.keys())))     # override an existing unitary
             u = rand_unitary(ctx)
             try:
                 s.unitary_dict[name] = u
@@ -445,8 +470,11 @@ def one_history(ctx, hid, nops):
             try:
                 if rng.random() < 0.35:
                     via = "ModelSaver"
-                    meta = md if rng.random() < 0.7 or md is None else (lambda nn, ep, _m=md: _m)
-                    ms = ModelSaver(period=1, folder_path=ctx.scratch, file_name="f{}", save_initial=False, metadata=meta)
+                    if rng.random() < 0.7 or md is None:
+                        ms = savers[mid]                    # long-lived: built before the MutateMd steps of this history
+                    else:
+                        ms = ModelSaver(period=1, folder_path=ctx.scratch, file_name="f{}", save_initial=False,
+                                        metadata=(lambda nn, ep, _m=md: _m))
                     ms.on_epoch_end(s, fid)
                 else:
                     form = str(rng.choice(["str", "Path", "file"], p=[0.6, 0.2, 0.2]))
@@ -684,6 +712,66 @@ def replace_histories(ctx):
                 ctx.traces += 1
 
 
+def metadata_value_histories(ctx):
+    """(a) every metadata value — also None / 0 / "" / False / [] / {} — is stored; (b) reserved names are refused
+    whatever value they carry; (c) a ModelSaver built BEFORE the caller updates the metadata dict stores the dict as
+    it is at save time."""
+    import torch
+    from qucumber.nn_states import ComplexWaveFunction, DensityMatrix, PositiveWaveFunction
+    from qucumber.callbacks import ModelSaver
+    values = [None, 0, "", False, [], {}, 0.0, 5, "x", {"a": None}, [None, 0], torch.tensor([0.0, 1.0]), torch.zeros(2)]
+    for cls, args in ((PositiveWaveFunction, (3, 2)), (ComplexWaveFunction, (2, 3)), (DensityMatrix, (2, 3, 1))):
+        s = cls(*args, gpu=False)
+        randomise_inplace(ctx, s)
+        p = os.path.join(ctx.scratch, "mdv_" + cls.__name__)
+        # (a)
+        md = {"k%d" % i: copy.deepcopy(v) for i, v in enumerate(values)}
+        case = {"history": ["save(metadata with falsy values)"], "state": cls.__name__}
+        ctx.case(case, nontrivial=True)
+        ok, _ = ctx.call("save with None / 0 / '' / False / [] / {} metadata values", case, s.save, p, md)
+        if ok:
+            d = torch.load(p)
+            missing = [k for k, v in md.items() if k not in d or not deep_eq(d[k], v)]
+            ctx.require("the written file holds every metadata key/value (falsy values included)", not missing, case, {"missing or changed": missing})
+            ok, a = ctx.call("autoload of that file", case, lambda: cls.autoload(p, gpu=False))
+            if ok:
+                check_loaded(ctx, "autoload", snapshot(s), a, case, True)
+        # (b)
+        reserved = list(s.networks) + (["unitary_dict"] if hasattr(s, "unitary_dict") else [])
+        for name in reserved:
+            for v in values + [{"w": torch.ones(2)}]:
+                before = open(p, "rb").read() if os.path.exists(p) else None
+                exc = None
+                try:
+                    s.save(p, {"note": 1, name: copy.deepcopy(v)})
+                except Exception as e:
+                    exc = e
+                case = {"history": ["save(reserved name with value %s)" % type(v).__name__], "state": cls.__name__, "reserved": name, "value": repr(v)[:40]}
+                ctx.require("reserved metadata key is refused (an exception is raised)", exc is not None, case)
+                after = open(p, "rb").read() if os.path.exists(p) else None
+                ctx.require("a refused save writes nothing", before == after, case)
+                ctx.count("fixed_reserved_refusal")
+        # (c)
+        for form in ("dict", "callable"):
+            md = {"epochs_done": 0}
+            folder = os.path.join(ctx.scratch, "msl_%s_%s" % (cls.__name__, form))
+            ms = ModelSaver(period=1, folder_path=folder, file_name="e{}", save_initial=True,
+                            metadata=md if form == "dict" else (lambda nn, ep, _m=md: _m))
+            case = {"history": ["ModelSaver(metadata=md)", "md updated by the caller", "periodic save"], "state": cls.__name__, "metadata_form": form}
+            ctx.case(case, nontrivial=True)
+            good = True
+            for ep in (1, 2):
+                md["epochs_done"] = ep
+                md["seen_%d" % ep] = None if ep == 1 else [ep]
+                ok, _ = ctx.call("periodic save", case, ms.on_epoch_end, s, ep)
+                if ok:
+                    d = torch.load(os.path.join(folder, "e%d" % ep))
+                    good = good and all(k in d and deep_eq(d[k], v) for k, v in md.items())
+            ctx.require("a periodic save stores the caller's metadata as it is at save time", good, case)
+            ctx.count("fixed_long_lived_saver")
+        ctx.traces += 1
+
+
 def unitary_dict_histories(ctx):
     """The loaded unitary dictionary is the SAVED one, also when the target had other / additional unitaries."""
     from qucumber.nn_states import ComplexWaveFunction, DensityMatrix
@@ -697,25 +785,30 @@ def unitary_dict_histories(ctx):
             randomise_inplace(ctx, s)
             if not saved_custom:
                 s.unitary_dict["H"] = rand_unitary(ctx)
-            t = cls(*args, gpu=False)
-            t.unitary_dict["U9"] = rand_unitary(ctx)          # a unitary the saved state does not have
-            t.unitary_dict["X"] = rand_unitary(ctx)           # and a different matrix under a shared name
             p = os.path.join(ctx.scratch, "ud_" + cls.__name__)
-            case = {"history": ["save", "load into a state with other unitaries"], "state": cls.__name__, "saved_custom_dict": saved_custom}
-            ctx.case(case, nontrivial=True)
             snap_s = snapshot(s)
-            ok, _ = ctx.call("save", case, s.save, p, {"k": 1})
-            ok2, _ = ctx.call("load", case, t.load, p) if ok else (False, None)
-            if ok2:
-                check_loaded(ctx, "load", snap_s, t, case, True)
-            ctx.count("fixed_unitary_dict_load")
-            ctx.traces += 1
+            for receiver in ("extra and overridden names", "same names, other matrices"):
+                if receiver.startswith("extra"):
+                    t = cls(*args, gpu=False)
+                    t.unitary_dict["U9"] = rand_unitary(ctx)      # a unitary the saved state does not have
+                    t.unitary_dict["X"] = rand_unitary(ctx)       # and a different matrix under a shared name
+                else:                                         # exactly the saved key set, every matrix different
+                    t = cls(*args, unitary_dict={k_: rand_unitary(ctx) for k_ in s.unitary_dict}, gpu=False)
+                case = {"history": ["save", "load into a state with " + receiver], "state": cls.__name__, "saved_custom_dict": saved_custom}
+                ctx.case(case, nontrivial=True)
+                ok, _ = ctx.call("save", case, s.save, p, {"k": 1})
+                ok2, _ = ctx.call("load", case, t.load, p) if ok else (False, None)
+                if ok2:
+                    check_loaded(ctx, "load", snap_s, t, case, True)
+                ctx.count("fixed_unitary_dict_load")
+                ctx.traces += 1
 
 
 def run(ctx):
     trust_check(ctx)
     fixed_histories(ctx)
     replace_histories(ctx)
+    metadata_value_histories(ctx)
     unitary_dict_histories(ctx)
     n = 200 if ctx.thorough else 60
     maxops = 25 if ctx.thorough else 12
